@@ -25,6 +25,11 @@ REQUIRED_CELLS = {'quick': ['mix:recv=S', 'mix:recv=M', 'mix:multi', 'mix:xpkg',
 TOL = 1e-12
 
 
+def _close(a, b):
+    # per-phase rows are summed in a different order by the sparse code and by NumPy
+    return abs(a - b) <= 1e-12 * max(1.0, abs(a), abs(b))
+
+
 def zero_pattern(spec):
     return [[1 if v else 0 for v in row] for row in spec['flows']]
 
@@ -85,9 +90,10 @@ def prop_mix(ch, ctx):
     nonempty = sum(1 for s in inlets if vs.dense(s).any())
     multi = any(sp['kind'] == 'M' for sp in specs)
     xpkg = any(sp['pkg'] != recv_pkg for sp in specs)
-    rkind = (specs[self_idx]['kind'] if self_idx >= 0 else (rspec['kind'] if rspec else 'S'))
+    sum_cls_S = ch.bool('sum.cls.S') if op == 'sum' else True
+    rkind = (specs[self_idx]['kind'] if self_idx >= 0 else (rspec['kind'] if rspec else ('S' if sum_cls_S else 'M')))
     region = f'recv={rkind},multi={int(multi)},xpkg={int(xpkg)},self={int(self_idx >= 0)},eb={int(eb)}'
-    ctx.cell(f'mix:recv={rkind}'); ctx.cell('mix:n=' + ('0' if n == 0 else '1' if n == 1 else '>=2'))
+    ctx.cell(f'mix:recv={rkind}'); ctx.cell('mix:n=0' if n == 0 else 'mix:n=1' if n == 1 else 'mix:n>=2')
     if multi: ctx.cell('mix:multi')
     if xpkg: ctx.cell('mix:xpkg')
     if self_idx >= 0: ctx.cell('mix:self')
@@ -97,7 +103,7 @@ def prop_mix(ch, ctx):
         ctx.call(site, recv.mix_from, inlets, energy_balance=eb, conserve_phases=conserve, region=region)
         result = recv
     elif op == 'sum':
-        cls = tmo.Stream if ch.bool('sum.cls.S') else tmo.MultiStream
+        cls = tmo.Stream if sum_cls_S else tmo.MultiStream
         result = ctx.call(site, cls.sum, inlets, None, th, eb, region=region)
     elif op == 'add':
         result = ctx.call(site, lambda: inlets[0] + inlets[1], region=region)
@@ -134,9 +140,19 @@ def prop_split(ch, ctx):
     eb = ch.bool('energy_balance')
     xp = ch.bool('xpkg')
     outs = []
+    # Soundness (DESIGN.md Appendix A, C01): Stream.split_to writes `outlet.mol[:]`, which is a read-only sum on
+    # a MultiStream, so with energy_balance=False a single-phase source is only split onto single-phase outlets
+    # (with energy_balance=True the outlets are first converted to the source's phase).  Outlets are fresh/empty or
+    # hold material from an earlier split of a source with the same phases (non-empty phases within the source's
+    # phases), because converting an outlet to a phase set lacking one of its non-empty phases is outside C12's domain.
+    okinds = ('S',) if (src['kind'] == 'S' and not eb) else ('S', 'M')
     for t in ('s1', 's2'):
         pk = [p for p in chem.SUPERSETS if p != src['pkg']] if xp else [src['pkg']]
-        sp = vs.draw_spec(ch, t, pk, T=(280., 400.))
+        if ch.bool(f'{t}.fresh'):
+            sp = vs.draw_spec(ch, t, pk, kinds=okinds, T=(280., 400.), allow_empty=True)
+            sp['flows'] = [[0.0] * len(r) for r in sp['flows']]
+        else:
+            sp = vs.draw_spec(ch, t, pk, kinds=okinds, phases=tuple(src['phases']), T=(280., 400.))
         outs.append(sp)
     n = len(chem.PACKAGES[src['pkg']])
     skind, split = draw_split(ch, n)
@@ -261,12 +277,16 @@ def prop_copy_flow(ch, ctx):
             if dkind == 'M' and phase is not ...:
                 # only the selected phase row moves; totals of that row
                 continue
-            if dest_after.get(c, 0.0) != b:
+            # the destination may keep what it held in rows the copy does not overwrite
+            da = dest_after.get(c, 0.0); keep = dest_before_tot.get(c, 0.0)
+            if da > b + keep and not _close(da, b + keep):
+                ctx.fail(f'copy_flow|{region}|duplicated', f'{nme}: source had {b!r}, destination held {keep!r}, now has {da!r}')
+            if da < b and not _close(da, b):
                 ctx.fail(f'copy_flow|{region}|lost', f'{nme}: source had {b!r}, removed, destination has {dest_after.get(c, 0.0)!r}')
         else:
-            if src_after[c] != b and not (dkind == 'M' and phase is not ...):
+            if not _close(src_after[c], b) and not (dkind == 'M' and phase is not ...):
                 ctx.fail(f'copy_flow|{region}|partial', f'{nme}: source {b!r} -> {src_after[c]!r}')
-            if dest_after.get(c, 0.0) not in (0.0, dest_before_tot.get(c, 0.0)) and not (dkind == 'M' and phase is not ...):
+            if not (_close(dest_after.get(c, 0.0), 0.0) or _close(dest_after.get(c, 0.0), dest_before_tot.get(c, 0.0))) and not (dkind == 'M' and phase is not ...):
                 ctx.fail(f'copy_flow|{region}|duplicated', f'{nme}: kept in source ({b!r}) but destination has {dest_after.get(c, 0.0)!r}')
     # effectiveness: chemicals that were requested must have moved (phase unrestricted)
     if phase is ... and not (idk == 'all' and exclude):
@@ -275,7 +295,7 @@ def prop_copy_flow(ch, ctx):
             req = (nme in chosen) != exclude
             if stot[c] and req and src_after[c] != 0:
                 ctx.fail(f'copy_flow|{region}|not-moved', f'{nme} requested but still in source')
-            if stot[c] and not req and src_after[c] != stot[c]:
+            if stot[c] and not req and not _close(src_after[c], stot[c]):
                 ctx.fail(f'copy_flow|{region}|moved-unrequested', f'{nme} not requested but source changed')
     # per-phase bookkeeping when one phase of a multi-phase pair is moved
     if dkind == 'M' and phase is not ... and src['kind'] == 'M':
